@@ -1229,4 +1229,71 @@ theorem bracesRec_spec : ∀ (fuel budget : Nat) (w : Word), wf w = true → noO
           simp only [denotPart, if_true, seqTexts, hsp', cross, List.flatMap_map]
           simp [cross]
 
+/-! ## The overflow witness runs into the limit -/
+
+theorem seqVals_succ (sp : SeqParams) (k : Nat) (n : Int) :
+    seqVals sp (k + 1) n =
+      if seqCond sp n then n :: seqVals sp k (wrap64 (n + sp.incr)) else [] := by
+  simp [seqVals]
+
+theorem seqVals_length_up1 (sp : SeqParams) (hup : sp.upward = true) (hincr : sp.incr = 1)
+    (hto : sp.to ≤ maxI64) :
+    ∀ (k : Nat) (n : Int), n + k ≤ sp.to + 1 → minI64 ≤ n → (seqVals sp k n).length = k := by
+  intro k
+  induction k with
+  | zero => intro n _ _; simp [seqVals]
+  | succ k ih =>
+    intro n hn hmin
+    have hcond : seqCond sp n = true := by
+      simp only [seqCond, hup]; simp; omega
+    simp only [seqVals, hcond, if_true, List.length_cons]
+    cases k with
+    | zero => simp [seqVals]
+    | succ k' =>
+      have hw : wrap64 (n + sp.incr) = n + 1 := by
+        rw [hincr]; apply wrap64_id <;> omega
+      rw [hw, ih (n + 1) (by omega) (by omega)]
+
+theorem altLoop_singletons (f : Nat → Word → Option (List Word)) (rest : List Part)
+    (alts : List Word) (hf : ∀ e ∈ alts, ∀ b, f b (e ++ rest) = some [e ++ rest]) :
+    ∀ budget, alts.length ≤ budget →
+      altLoop f rest alts budget = some (alts.map (· ++ rest)) := by
+  induction alts with
+  | nil => intro b _; simp [altLoop]
+  | cons e es ih =>
+    intro b hb
+    simp only [List.length_cons] at hb
+    simp only [altLoop]
+    rw [if_neg (by omega), hf e (by simp) b]
+    simp only [List.length_cons, List.length_nil]
+    rw [ih (fun e' he' => hf e' (by simp [he'])) (b - (0 + 1)) (by omega)]
+    simp
+
+/-- A word that is exactly one sequence followed by a literal: if the Go loop produces more than
+    `limit` values, `BracesSeq` ends in the limit error. -/
+theorem expand_single_seq_limit (elems : List Word) (v : Bytes) (sp : SeqParams)
+    (hsp : seqParams elems = some sp)
+    (hlen : (seqVals sp (limit + 1) sp.from).length = limit + 1) :
+    isLimitErr (expand [.brace true elems, .lit v]) = true := by
+  have hb : ∀ (F b : Nat) (t : Bytes), bracesRec (F + 1) b ([Part.lit t] ++ [Part.lit v]) =
+      some [[Part.lit t] ++ [Part.lit v]] := by
+    intro F b t; simp [bracesRec, splitAtBrace]
+  have hal := altLoop_singletons (bracesRec (bracesInElems elems + 1)) [.lit v]
+    ((seqVals sp (limit + 1) sp.from).map fun n => [Part.lit (fmtSeq sp n)]) (by
+      intro e he b
+      simp only [List.mem_map] at he
+      obtain ⟨n, _, rfl⟩ := he
+      exact hb _ b _) (limit + 1) (by simp [hlen])
+  have hfuel : bracesIn [Part.brace true elems, Part.lit v] + 1 = bracesInElems elems + 1 + 1 := by
+    simp; omega
+  have h1 : bracesRec (bracesInElems elems + 1 + 1) (limit + 1) [Part.brace true elems, Part.lit v] =
+      some (((seqVals sp (limit + 1) sp.from).map fun n => [Part.lit (fmtSeq sp n)]).map
+        (· ++ [Part.lit v])) := by
+    rw [bracesRec]
+    simp only [splitAtBrace, if_true, hsp, hal]
+    simp
+  unfold expand bracesSeq
+  rw [hfuel, h1]
+  simp [hlen, isLimitErr]
+
 end ShVerif.C16
